@@ -342,6 +342,7 @@ class StorageRunner:
 
     injected = ()          # exception classes raised by injected faults (C05)
     probe = None           # callable(runner, t, phase) run inside open transactions (C05)
+    just_aborted_after_vote = False
 
     def do_txn(self, meta, recs, end):
         s = self.storage
@@ -522,6 +523,7 @@ class StorageRunner:
         if abort_at is not None:
             self.abort(t)
             self.labels.add('abort-after-vote')
+            self.just_aborted_after_vote = True
             return
         got = []
         self.in_finish = True
